@@ -126,6 +126,22 @@ def gen(rng, n_manual, n_auto):
             other = rng.randrange(nl)
             c["faults"] = {"1": [["F0L0", "6"]], str(k2): [[f"F0L{other}", str(rng.choice([F(1), F(2)]))]]}
             c["n_inc"] = k2 + int((T + 8) / dt) + 8
+        if j % 6 == 0 and j % 4 != 0:
+            # targeted: a silent fault.  Sections T = {L0}, U = {L1, L2, ...}, P = {Lp, ...} in a chain; a fault in U isolates U and
+            # with it the boundary disconnector on P's first line, which goes out of service while P stays connected; that line
+            # then fails while de-energised (nothing trips); U is repaired first: the inspection triggered by the repair has to
+            # find the failed line before U is put back
+            c = ctl.gen_scenario(rng, max_lines=3, nfeed=1, allow_mg=False)
+            nu = rng.choice([2, 3]); npp = rng.choice([1, 2])
+            nl = 1 + nu + npp
+            fd = {"parent": [-1] + list(range(nl - 1)), "sw": [0, 1] + [0] * (nu - 1) + [1] + [0] * (npp - 1), "cust": [1] * nl, "load": ["1/50"] * nl, "cost": [1] * nl}
+            c["spec"]["feeders"] = [fd]; c["spec"]["tie"] = None; c["spec"]["mg"] = None
+            T = rng.choice([F(1), F(1, 2)]); dt = rng.choice([F(1), F(1, 2)])
+            c["spec"]["ctrl"]["T"] = str(T); c["dt"] = str(dt)
+            k1 = rng.randint(1, 2); k2 = k1 + math.ceil(T / dt) + rng.randint(1, 2)
+            repU = (k2 - k1) * dt + rng.choice([2, 3]) * dt
+            c["faults"] = {str(k1): [[f"F0L{rng.randint(1, nu)}", str(repU)]], str(k2): [[f"F0L{1 + nu}", str(repU + 8)]]}
+            c["n_inc"] = k2 + int((repU + 8 + 2 * T) / dt) + 8
         if j % 6 == 5:
             ctl.add_second(rng, c)       # two iterations on the same objects (reset_system between)
         if j % 6 == 3:
